@@ -308,7 +308,7 @@ def t_chunk(text):
 def r10(text):
     n = 0
     while True:
-        m = re.search(r"\bfor\s+(\w+|\([\w\s,]+\))\s+in\s+(?=&|\w+\.split\(|\w+\s*\{)", text)
+        m = re.search(r"\bfor\s+(&?\w+|\([\w\s,]+\))\s+in\s+(?=&|\w+\.split\(|\w+\s*\{|\w+\.as_bytes\(\)\s*\{)", text)
         if not m:
             break
         # iterator expression runs to the '{' opening the loop body
@@ -320,9 +320,12 @@ def r10(text):
             j += 1
         brace = m.end() + toks[j].start
         expr = text[m.end():brace].strip()
-        if re.fullmatch(r"\w+", expr):
-            # iteration over a slice by reference: element k, in order
-            head = "let mut i_: usize = 0; while i_ < %s.len() { let %s = &%s[i_]; i_ += 1;" % (expr, m.group(1), expr)
+        if re.fullmatch(r"\w+(\.as_bytes\(\))?", expr):
+            # iteration over a slice by reference: element k, in order (`for &x in v` copies the element: `let x = v[k]`)
+            if m.group(1).startswith("&"):
+                head = "let mut i_: usize = 0; while i_ < %s.len() { let %s = %s[i_]; i_ += 1;" % (expr, m.group(1)[1:], expr)
+            else:
+                head = "let mut i_: usize = 0; while i_ < %s.len() { let %s = &%s[i_]; i_ += 1;" % (expr, m.group(1), expr)
         elif expr.startswith("&mut "):
             head = "loop { let Some(%s) = %s.next() else { break };" % (m.group(1), expr[5:].strip())
         elif expr.startswith("&"):
